@@ -327,17 +327,19 @@ type Interp struct {
 	objN      int
 	Undecided []string // constructs the interpreter could not model in a function that matters
 	// statistics for coverage rules
-	FieldReads   map[*types.Var]bool
-	FieldStores  map[*types.Var]bool
-	NoInline     func(f *types.Func) bool
-	pureGetter   map[*types.Func]int
-	purePred     map[*types.Func]bool
-	getterMarked map[*types.Func]bool
-	Trace        bool
-	Entry        string
-	loopForms    []*LoopForm
-	BitMode      bool           // track integers used in bit operations as provenance vectors
-	symNames     map[int]string // names of symbols (reader inputs) in bit vectors
+	FieldReads  map[*types.Var]bool
+	FieldStores map[*types.Var]bool
+	NoInline    func(f *types.Func) bool
+	// SentinelErrors: package-level error variables built by errors.New and never reassigned are non-nil
+	SentinelErrors bool
+	pureGetter     map[*types.Func]int
+	purePred       map[*types.Func]bool
+	getterMarked   map[*types.Func]bool
+	Trace          bool
+	Entry          string
+	loopForms      []*LoopForm
+	BitMode        bool           // track integers used in bit operations as provenance vectors
+	symNames       map[int]string // names of symbols (reader inputs) in bit vectors
 }
 
 // Form is a byte-size expression: constant + symbolic terms + per-iteration sums of loops.
@@ -2073,6 +2075,11 @@ func (in *Interp) expr(e ast.Expr, st *State, fr *frame, k func(*State, Val)) {
 		in.selector(x, st, fr, k)
 	case *ast.StarExpr:
 		in.expr(x.X, st, fr, func(st *State, v Val) {
+			if h, ok := in.Hooks.(interface {
+				Deref(in *Interp, x *ast.StarExpr, base Val, st *State)
+			}); ok {
+				h.Deref(in, x, v, st)
+			}
 			switch v.K {
 			case KExpr:
 				k(st, Val{K: KExpr, Key: "*" + v.Key, T: typeOf(fr, e)})
@@ -2205,7 +2212,7 @@ func (in *Interp) ident(x *ast.Ident, st *State, fr *frame, k func(*State, Val))
 		}
 		if o.Parent() != nil && o.Pkg() != nil && o.Parent() == o.Pkg().Scope() {
 			// package-level variable
-			k(st, Val{K: KExpr, Key: "global:" + shortPkg(o.Pkg()) + "." + o.Name(), T: o.Type()})
+			k(st, in.globalVal(o))
 			return
 		}
 		k(st, unknown)
@@ -2245,7 +2252,7 @@ func (in *Interp) selector(x *ast.SelectorExpr, st *State, fr *frame, k func(*St
 	case *types.Const:
 		k(st, Val{K: KConst, C: o.Val(), T: o.Type()})
 	case *types.Var:
-		k(st, Val{K: KExpr, Key: "global:" + shortPkg(o.Pkg()) + "." + o.Name(), T: o.Type()})
+		k(st, in.globalVal(o))
 	case *types.Func:
 		k(st, Val{K: KFunc, Fn: &Closure{Decl: o}})
 	default:
@@ -2502,4 +2509,71 @@ func asLin(v Val) (*Lin, bool) {
 		}
 	}
 	return nil, false
+}
+
+// globalVal is the value of a package-level variable. With SentinelErrors set, a variable of type
+// error that is initialised by errors.New / fmt.Errorf and never assigned anywhere in the module is
+// known to be non-nil.
+func (in *Interp) globalVal(o *types.Var) Val {
+	if in.SentinelErrors && isErrorType(o.Type()) && in.P.sentinelError(o) {
+		return Val{K: KNonNil, T: o.Type()}
+	}
+	return Val{K: KExpr, Key: "global:" + shortPkg(o.Pkg()) + "." + o.Name(), T: o.Type()}
+}
+
+func (p *Program) sentinelError(o *types.Var) bool {
+	if p.sentinels == nil {
+		p.sentinels = map[*types.Var]bool{}
+		assigned := map[*types.Var]bool{}
+		for _, pkg := range p.Pkgs {
+			for _, f := range pkg.Syntax {
+				ast.Inspect(f, func(n ast.Node) bool {
+					switch n := n.(type) {
+					case *ast.AssignStmt:
+						for _, l := range n.Lhs {
+							if id, ok := l.(*ast.Ident); ok {
+								if v, ok := pkg.TypesInfo.Uses[id].(*types.Var); ok {
+									assigned[v] = true
+								}
+							}
+							if se, ok := l.(*ast.SelectorExpr); ok {
+								if v, ok := pkg.TypesInfo.Uses[se.Sel].(*types.Var); ok {
+									assigned[v] = true
+								}
+							}
+						}
+					case *ast.UnaryExpr:
+						if n.Op == token.AND {
+							if id, ok := n.X.(*ast.Ident); ok {
+								if v, ok := pkg.TypesInfo.Uses[id].(*types.Var); ok {
+									assigned[v] = true
+								}
+							}
+						}
+					case *ast.ValueSpec:
+						for i, id := range n.Names {
+							v, ok := pkg.TypesInfo.Defs[id].(*types.Var)
+							if !ok || v.Parent() != pkg.Types.Scope() || i >= len(n.Values) {
+								continue
+							}
+							if c, ok := n.Values[i].(*ast.CallExpr); ok {
+								if se, ok := c.Fun.(*ast.SelectorExpr); ok {
+									if f, ok := pkg.TypesInfo.Uses[se.Sel].(*types.Func); ok {
+										if fn := f.FullName(); fn == "errors.New" || fn == "fmt.Errorf" {
+											p.sentinels[v] = true
+										}
+									}
+								}
+							}
+						}
+					}
+					return true
+				})
+			}
+		}
+		for v := range assigned {
+			delete(p.sentinels, v)
+		}
+	}
+	return p.sentinels[o]
 }
